@@ -3,6 +3,7 @@
 #include <stdbool.h>
 #include "d_string.h"
 #include "libMultiMarkdown.h"
+#include "token.h"
 char * label_from_string(const char * str);
 char * clean_string(const char * str, bool lowercase, bool url_clean);
 void mmd_print_string_html(DString * out, const char * str, bool obfuscate, bool line_breaks);
@@ -12,12 +13,18 @@ void mmd_print_source_opml(DString * out, const char * source, size_t start, siz
 void mmd_print_source_itmz(DString * out, const char * source, size_t start, size_t len);
 void print_xml_as_text(DString * out, const char * source, size_t start, size_t len);
 unsigned char * utf8_check(unsigned char * s);
+void mmd_critic_markup_accept(DString * d);
+void mmd_critic_markup_reject(DString * d);
+void mmd_critic_markup_accept_range(DString * d, size_t start, size_t len);
+void mmd_critic_markup_reject_range(DString * d, size_t start, size_t len);
 
 int main(void) {
 	char * line;
+	token_pool_init();
 	while ((line = h_readline(stdin))) {
-		char * f[3];
-		if (h_split(line, ' ', f, 3) < 2) { printf("?\n"); fflush(stdout); free(line); continue; }
+		char * f[5];
+		int nf = h_split(line, ' ', f, 5);
+		if (nf < 2) { printf("?\n"); fflush(stdout); free(line); continue; }
 		size_t len; char * s = h_unhex(f[1], &len);
 		DString * d = d_string_new("");
 		char * r = NULL;
@@ -33,6 +40,10 @@ int main(void) {
 		else if (!strcmp(f[0], "esc_odf_br")) mmd_print_string_opendocument(d, s, true);
 		else if (!strcmp(f[0], "esc_opml")) mmd_print_source_opml(d, s, 0, len);
 		else if (!strcmp(f[0], "esc_itmz")) mmd_print_source_itmz(d, s, 0, len);
+		else if (!strcmp(f[0], "accept")) { d_string_append(d, s); mmd_critic_markup_accept(d); }
+		else if (!strcmp(f[0], "reject")) { d_string_append(d, s); mmd_critic_markup_reject(d); }
+		else if (!strcmp(f[0], "accept_range") && nf >= 4) { d_string_append(d, s); mmd_critic_markup_accept_range(d, strtoul(f[2], 0, 10), strtoul(f[3], 0, 10)); }
+		else if (!strcmp(f[0], "reject_range") && nf >= 4) { d_string_append(d, s); mmd_critic_markup_reject_range(d, strtoul(f[2], 0, 10), strtoul(f[3], 0, 10)); }
 		else if (!strcmp(f[0], "unesc")) print_xml_as_text(d, s, 0, len);
 		else if (!strcmp(f[0], "utf8")) d_string_append(d, utf8_check((unsigned char *) s) ? "0" : "1");
 		if (r) { d_string_append(d, r); free(r); }
